@@ -284,12 +284,15 @@ def handleMerkle (env : Env Node VH V) (m : Mux Node VH V) (si : Nat) (page : MP
   | .ok (_, .leaf _) => .panic "panic!(): not a merkle load"
   | .ok (slab, .merkle pid _ _) =>
     -- `page_cache.insert` keeps and returns an image that is already there
-    let (page, cache) := match m.cache.lookup pid with
-      | some pg => (pg, m.cache)
-      | none => (page, (pid, page) :: m.cache)
-    let (ws, woken) := removeWaiters m.waiters (.page pid)
-    wakeLoop (fun ps r => continueSeek env ps r pid page) woken
-      { m with slab := slab, cache := cache, ps := m.ps.insert pid page .persisted, waiters := ws }
+    let page' := match m.cache.lookup pid with
+      | some pg => pg
+      | none => page
+    let cache' := match m.cache.lookup pid with
+      | some _ => m.cache
+      | none => (pid, page) :: m.cache
+    wakeLoop (fun ps r => continueSeek env ps r pid page') (removeWaiters m.waiters (.page pid)).2
+      { m with slab := slab, cache := cache', ps := m.ps.insert pid page' .persisted,
+               waiters := (removeWaiters m.waiters (.page pid)).1 }
 
 /-- `handle_leaf_page_and_continue(slab_index, page, page_set)` -/
 def handleLeaf (env : Env Node VH V) (m : Mux Node VH V) (si : Nat) : Outcome Unit (Mux Node VH V) :=
@@ -298,9 +301,8 @@ def handleLeaf (env : Env Node VH V) (m : Mux Node VH V) (si : Nat) : Outcome Un
   | .err e => .err e
   | .ok (_, .merkle ..) => .panic "panic!(): not a leaf load"
   | .ok (slab, .leaf l) =>
-    let (ws, woken) := removeWaiters m.waiters (.leaf l)
-    wakeLoop (fun ps r => feedLeaf env ps r l) woken
-      { m with slab := slab, waiters := ws, leafCache := l :: m.leafCache }
+    wakeLoop (fun ps r => feedLeaf env ps r l) (removeWaiters m.waiters (.leaf l)).2
+      { m with slab := slab, waiters := (removeWaiters m.waiters (.leaf l)).1, leafCache := l :: m.leafCache }
 
 /-- `handle_completion(page_set, io)` for the read with this `user_data`; `.err ()` = no such read is in flight -/
 def recv (env : Env Node VH V) (ht : Ht) (m : Mux Node VH V) (ud : Nat) : Outcome Unit (Mux Node VH V) :=
